@@ -250,12 +250,12 @@ theorem cnt_phase1 (s0 : State) (w : WS) (n : Nat) :
     exact Triple.conseq rest (fun _ h => h) (fun _ r h => h) (fun _ _ => trivial)
 
 /-- **A successful commit changes the store counts by exactly the write set's deltas** -/
-theorem commit_ok_counts {s0 : State} {w : WS} {fresh0 : List (UUID × UUID)} (fault : Option Fault) (tid : Tid) (n : Nat) (r2 : Run)
-    (hok : commit w n { s := s0, tid := tid, fault := fault, fresh := fresh0 } = (.ok, r2)) :
+theorem commit_ok_counts {s0 : State} {w : WS} {fresh0 : List (UUID × UUID)} (fault : Option Fault) {cs0 : Step} (tid : Tid) (n : Nat) (r2 : Run)
+    (hok : commit w n { s := s0, tid := tid, fault := fault, fresh := fresh0, cs := cs0 } = (.ok, r2)) :
     r2.s.cnt = if w.hasTracked then w.countsAfter s0 else s0.cnt := by
-  have h1 := cnt_phase1 s0 w n { s := s0, tid := tid, fault := fault, fresh := fresh0 } rfl
+  have h1 := cnt_phase1 s0 w n { s := s0, tid := tid, fault := fault, fresh := fresh0, cs := cs0 } rfl
   unfold commit at hok
-  cases hp : phase1 w n { s := s0, tid := tid, fault := fault, fresh := fresh0 } with
+  cases hp : phase1 w n { s := s0, tid := tid, fault := fault, fresh := fresh0, cs := cs0 } with
   | error r1 =>
     rw [hp] at hok
     simp only at hok
